@@ -36,9 +36,12 @@ def _rx_top(extra=()):
 def _rx_regs(h, rx):
     """the registers of the receiver: the two synchroniser stages created by the MultiReg lowering, and the locals"""
     sync = sorted([s for s in h.ts.state if s not in h.ts.orig_signals and s.nbits == 1], key=lambda s: s.duid)
-    assert len(sync) == 2, sync
+    if len(sync) != 2: raise SidecarMismatch(f"RS232PHYRX: expected the two synchroniser flops of MultiReg(pads.rx, rx), found {len(sync)}")
     phase = [s for s in h.ts.state if s.nbits == 32][0]
-    return sync[0], sync[1], L(rx, "rx"), L(rx, "rx_d"), L(rx, "count"), L(rx, "data"), phase, rx.clk_phase_accum.tick
+    regs = dict(rx=L(rx, "rx"), count=L(rx, "count"), data=L(rx, "data"))
+    missing = [k for k, v in regs.items() if v is None]
+    if missing: raise SidecarMismatch(f"RS232PHYRX: internal register(s) {missing} not found")
+    return sync[0], sync[1], regs["rx"], L(rx, "rx_d"), regs["count"], regs["data"], phase, rx.clk_phase_accum.tick      # rx_d (delayed line sample) may be absent: only hints use it
 
 def c_uart_rx():
     """arbitrary line, arbitrary (even changing) tuning word: what the receiver does with the line, bit by bit"""
@@ -52,8 +55,9 @@ def c_uart_rx():
     tk = b(V(tick)); tw = V(d.tw)
     # the synchronised line: rx is the pad two cycles ago, rx_d three cycles ago
     p1 = h.prev("line1", V(pads.rx)); p2 = h.prev("line2", p1); p3 = h.prev("line3", p2)
-    h.hint("sync0", V(r0) == p1); h.hint("sync1", V(r1) == p2); h.hint("sync2", V(rx_d) == p3)
-    h.ensure("ens.sync", z3.And(V(rxs) == p2, V(rx_d) == p3))
+    h.hint("sync0", V(r0) == p1); h.hint("sync1", V(r1) == p2)
+    if rx_d is not None: h.hint("sync2", V(rx_d) == p3)
+    h.ensure("ens.sync", V(rxs) == p2)                       # the line as the receiver sees it: the pad two cycles ago (p3 = three cycles ago is a ghost)
     # ghost: number of samples taken in this frame, the byte assembled LSB first from samples 1..8, elapsed extended phase
     ns = h.ghost("nsamples", 4); gb = h.ghost("gbyte", 8); acc = h.ghost("acc", 40, init=1 << 31)
     sample = z3.And(run, tk)
@@ -102,6 +106,7 @@ def c_uart_rx_link_sym(tmin=12):
     h = HwCheck(f"RS232PHYRX.link(tw symbolic,T>={tmin})", d, [d.tw, pads.rx, go, byte, ph])
     V = h.v
     r0, r1, rxs, rx_d, count, data, phase, tick = _rx_regs(h, rx)
+    if rx_d is None: raise SidecarMismatch("RS232PHYRX: the delayed line sample register rx_d (edge detector) is gone: the link-level invariants do not apply")
     st, enc = rx.fsm.state, rx.fsm.encoding
     idle = eqc(V(st), enc["IDLE"]); run = eqc(V(st), enc["RUN"])
     W = 40
@@ -186,6 +191,7 @@ def c_uart_rx_link_int(k=5, dmax=1, deep=True):
     h = HwCheck(f"RS232PHYRX.link(T={Tc},+-{dmax})", d, [d.tw, pads.rx, go, byte])
     V = h.v
     r0, r1, rxs, rx_d, count, data, phase, tick = _rx_regs(h, rx)
+    if rx_d is None: raise SidecarMismatch("RS232PHYRX: the delayed line sample register rx_d (edge detector) is gone: the link-level invariants do not apply")
     st, enc = rx.fsm.state, rx.fsm.encoding
     idle = eqc(V(st), enc["IDLE"]); run = eqc(V(st), enc["RUN"])
     one, zero = K(1, 1), K(0, 1)
